@@ -487,6 +487,56 @@ def derived_key(ctx, act, state, args, obs):
     return f"{ctx['kind']}:feature-slice:{where}:{first}:later-queries-disagree"
 
 
+def check_orders(rep, kind, ukey, u):
+    """the universe's features supplied with their spans in every other order (Universe.orders), through a db and through
+    seq.add_feature: the root and the views one call away must show the same features; a refused add_feature leaves no trace"""
+    meta = u["meta"]
+    off, feats, compl = meta["off"], meta["feats"], meta["compl"]
+    root = I.root_string(G["seed"], ukey, meta["P"])
+    rootkey = dumps(meta["from"])
+    looks, trans = u["looks"], u["trans"]
+    for n, given in enumerate(zip(*meta["orders"])):
+        if G["order_rate"] < 1 and (zlib.crc32(f"{ukey}{kind}{n}".encode()) ^ G["seed"]) % 9973 >= G["order_rate"] * 9973:
+            continue
+        for mode in ("db-order", "add-order"):
+            via = {"given": [list(q) for q in given]}
+            ctx = {"kind": kind, "mode": mode, "off": off, "root": root, "compl": compl, "feats": feats, "ukey": ukey, "via": via}
+            rep.stats["universe_variants"] += 1
+            try:
+                seq, refused = I.make_universe(kind, mode, root, off, feats, via)
+            except Exception as ex:
+                rep.add(f"{kind}:{mode}:setup:raised-{type(ex).__name__}", lambda: {"kind": kind, "mode": mode, "root": root, "offset": off, "features": feats, "via": via, "exception": repr(ex)},
+                        f"supplying the spans as {via['given']} raised {ex!r}")
+                continue
+            gone = {nm for nm, _ in refused}
+            views = [(rootkey, seq, [])]
+            for act, args, tk, _ in trans.get(rootkey, ()):
+                if tk in looks and act in ("Slice", "Rc"):
+                    try:
+                        views.append((tk, I.apply(seq, act, args), [[act, args]]))
+                    except Exception as ex:
+                        rep.stats[f"unsupported:{kind}:{act}:{type(ex).__name__}"] += 1
+            for key, o, chain in views:
+                look = looks[key]
+                rep.stats["states"] += 1
+                # a refused add_feature is a stuttering step: that feature must not be there
+                obs = [dict(f, vis="out", inside="out") if f["name"] in gone else f for f in look["obs"]]
+                sub = Report()
+                observe(sub, ctx, o, look["from"], obs, lambda chain=chain: chain)
+                for k, v in sub.stats.items():
+                    rep.stats[k] += v
+                rep.nontrivial |= sub.nontrivial
+                for fkey, (cnt, det, what) in sub.fail.items():
+                    name = det.get("feature") if isinstance(det, dict) else None
+                    if fkey.endswith(":unexpected") and name in gone:
+                        why = dict(refused)[name]
+                        det = dict(det, refused=why)
+                        rep.add(f"{kind}:add_feature:unordered-spans:refused-but-recorded", lambda det=det: det,
+                                f"add_feature(spans={via['given']}) raised ({why}) but the record is there afterwards")
+                    else:
+                        rep.add(fkey, lambda det=det: det, what)
+
+
 def modes_for(u, ukey):
     """how the universe's features get into the database"""
     off = u["meta"]["off"]
@@ -508,6 +558,10 @@ def run_universe(ukey):
         lst.sort(key=lambda t: (t[0], t[1]))
     rep.stats["spec_states"] = len(u["looks"])
     rep.stats["spec_transitions"] = sum(len(v) for v in u["trans"].values())
+    if G["level"] == "order":
+        for kind in I.KINDS:
+            check_orders(rep, kind, ukey, u)
+        return rep.dump()
     if G["level"] == "names":
         for lvl in NM.LEVELS:
             NM.check_universe(rep, G, lvl, ukey, u)
@@ -528,10 +582,11 @@ _UKEY = {
     "seq": re.compile(r'^"\{\\"from\\":\[(\d+,\[\[[0-9,\[\]]*?\]\]),'),
     "aln": re.compile(r'^"\{\\"from\\":\[(\[[0-9,]*\],\[[0-9,]*\],\[\[[0-9,\[\]]*?\]\],\\"[+-]\\"),'),
 }
-_NKEY = {"seq": 2, "aln": 4, "names": 3, "stride": 2}
+_NKEY = {"seq": 2, "aln": 4, "names": 3, "stride": 2, "order": 2}
 _ACT = re.compile(r'\\"act\\":\\"(\w+)\\"')
 _ACTIONS = {"seq": {"Universe", "Look", "Slice", "Rc", "RevSlice", "Copy", "FeatSlice", "Degap"}, "aln": {"Universe", "Look", "Slice", "Rc"},
-            "names": {"Universe", "Look", "Slice", "Rc"}, "stride": {"Universe", "Look", "Slice", "Rc"}}
+            "names": {"Universe", "Look", "Slice", "Rc"}, "stride": {"Universe", "Look", "Slice", "Rc"},
+            "order": {"Universe", "Look", "Slice", "Rc"}}
 
 
 def split_by_universe(emit, scratch, name, level):
@@ -545,7 +600,7 @@ def split_by_universe(emit, scratch, name, level):
                 continue
             a = _ACT.search(line)
             acts[a.group(1) if a else "?"] += 1
-            m = _UKEY["seq" if level == "stride" else level].match(line) if level in _UKEY or level == "stride" else None
+            m = _UKEY["seq" if level in ("stride", "order") else level].match(line) if level in _UKEY or level in ("stride", "order") else None
             if m is None:
                 r = json.loads(line)
                 r = json.loads(r) if isinstance(r, str) else r
@@ -587,7 +642,7 @@ class TlcJob:
         self.name, self.level = name, level
         self.emit = scratch / f"emit-{name}.ndjson"
         self.res = self.err = None
-        spec = {"seq": "Annotation", "aln": "AnnotationAln", "hist": "AnnotationHistory", "names": "AnnotationNames", "stride": "AnnotationStride"}[level]
+        spec = {"seq": "Annotation", "aln": "AnnotationAln", "hist": "AnnotationHistory", "names": "AnnotationNames", "stride": "AnnotationStride", "order": "Annotation"}[level]
 
         def work():
             try:
@@ -622,7 +677,7 @@ def stage(run, scratch, job, totals, tm, edge_rate, window_rate, algebra_rate=0.
     os.unlink(job.emit)
     if not files:
         raise RuntimeError("TLC emitted nothing")
-    G.update(files=files, seed=run.seed, tier=run.tier, edge_rate=edge_rate, window_rate=window_rate, level=level, algebra_rate=algebra_rate, names_rate=window_rate)
+    G.update(files=files, seed=run.seed, tier=run.tier, edge_rate=edge_rate, window_rate=window_rate, level=level, algebra_rate=algebra_rate, names_rate=window_rate, order_rate=edge_rate)
     tm[f"{name}.emitted"] = nrec
     tm[f"{name}.universes"] = len(files)
     tm[f"{name}.split_s"] = round(time.time() - t0, 1)
@@ -757,6 +812,8 @@ def check(run: Run):
             ("names", "MC_Annotation_names.cfg", "names", 0, float(env("VERIF_C04_NAMES", "0.25"))),
             # strided views seq[a:b:k], k = 1..3, rc of them, strided slices of slices: every state, a seeded sample of the other histories
             ("stride", "MC_Annotation_stride_quick.cfg", "stride", float(env("VERIF_C04_STRIDE", "0.03")), 0),
+            # spans supplied in every order (2- and 3-span features), through a db and through seq.add_feature
+            ("order", "MC_Annotation_order.cfg", "order", float(env("VERIF_C04_ORDER", "0.15")), 0),
         ]
     else:
         plan = [
@@ -770,6 +827,7 @@ def check(run: Run):
             ("hist", "MC_Annotation_hist_thorough.cfg", "hist", float(env("VERIF_C04_HIST", "0.07")), 0),
             ("names", "MC_Annotation_names.cfg", "names", 0, 1.0),
             ("stride", "MC_Annotation_stride_thorough.cfg", "stride", float(env("VERIF_C04_STRIDE", "0.03")), 0),
+            ("order", "MC_Annotation_order.cfg", "order", 1.0, 0),
         ]
     # share of the states on which the feature algebra / masking is exercised as well
     alg_rates = {"views": float(env("VERIF_C04_ALGEBRA", "0.08" if tier == "quick" else "0.05")), "small": float(env("VERIF_C04_ALGEBRA", "0.5")),
@@ -780,7 +838,7 @@ def check(run: Run):
     with Scratch("C04") as scratch:
         # all model-checking runs start now (they share the TLC worker budget) and are replayed in order as they finish
         # at most three model-checking runs at a time (8 TLC workers between them); the next one starts when a stage is done
-        share = {"small": 2, "views": 4, "aln": 2, "hist": 3, "names": 1, "stride": 3} if tier == "thorough" else {"views": 4, "aln": 2, "hist": 2, "names": 1, "stride": 2}
+        share = {"small": 2, "views": 4, "aln": 2, "hist": 3, "names": 1, "stride": 3, "order": 2} if tier == "thorough" else {"views": 4, "aln": 2, "hist": 2, "names": 1, "stride": 2, "order": 2}
         jobs = [TlcJob(scratch, name, cfg, level, share.get(name, 2)) for name, cfg, level, _, _ in plan]
         for job in jobs[:3]:
             job.start()
